@@ -314,6 +314,8 @@ struct State {
     ips: Vec<Ipv4Addr>,
     /// handle `USE x` inside the node (SetKeyspace + ack)
     auto_use: bool,
+    /// a muted node reads and records frames but answers nothing (not even keep-alives)
+    muted: Vec<bool>,
     /// print every frame to stderr (developer aid)
     trace: bool,
 }
@@ -395,6 +397,7 @@ impl MockCluster {
                 topo,
                 ips,
                 auto_use: true,
+                muted: vec![false; n],
                 trace: std::env::var_os("VERIF_E2E_TRACE").is_some(),
             }),
             handler: Mutex::new(handler),
@@ -548,6 +551,11 @@ impl MockCluster {
         st.ctl[node][conn].kill.notify_one();
     }
 
+    /// A muted node keeps reading (and recording) frames but answers nothing, keep-alives included.
+    pub fn set_muted(&self, node: usize, muted: bool) {
+        self.shared.st.lock().unwrap().muted[node] = muted;
+    }
+
     /// Stops listening on a node and closes its connections.
     pub async fn stop_node(&self, node: usize) {
         let l = self.listeners.lock().unwrap()[node].take();
@@ -589,6 +597,7 @@ impl MockCluster {
             st.ips.push(ip_of(self.base, i));
             st.conns.push(Vec::new());
             st.ctl.push(Vec::new());
+            st.muted.push(false);
             i
         };
         self.listeners.lock().unwrap().push(None);
@@ -695,7 +704,11 @@ async fn serve_conn(
         // classify + record under the lock
         let (req, internal_actions) = {
             let mut st = shared.st.lock().unwrap();
-            let internal_actions = internal_response(&mut st, node, conn, shard, port, &parsed);
+            let mut internal_actions = internal_response(&mut st, node, conn, shard, port, &parsed);
+            let internal = internal_actions.is_some();
+            if st.muted[node] {
+                internal_actions = Some(vec![]);
+            }
             if matches!(parsed, Parsed::Register(_)) {
                 st.conns[node][conn].control = true;
             }
@@ -712,7 +725,7 @@ async fn serve_conn(
                 parsed,
                 keyspace: ci.keyspace.clone(),
                 control: ci.control,
-                internal: internal_actions.is_some(),
+                internal,
             };
             if st.trace {
                 eprintln!("[mock n{} c{} s{:?} #{}] {:?} ks={:?}", node, conn, req.shard, req.stream, req.parsed, req.keyspace);
